@@ -104,5 +104,16 @@ func gen(tier string, seed int64) []hx.Scenario {
 		out = append(out, hx.Scenario{Name: "pedersen", Cfg: h.String(), Run: func(x *hx.Ctx) { pedRun(x, h) }})
 		out = append(out, hx.Scenario{Name: "rabin", Cfg: h.String(), Run: func(x *hx.Ctx) { rabRun(x, h) }})
 	}
+	for n := 2; n <= 4; n++ {
+		for t := (n + 1) / 2; t <= n; t++ {
+			if t < 2 {
+				continue
+			}
+			for _, bad := range []int{1, n + 1} {
+				out = append(out, hx.Scenario{Name: "pedersen-uniform-badT", Cfg: fmt.Sprintf("n=%d t=%d T=%d", n, t, bad), Run: func(x *hx.Ctx) { pedUniformBadT(x, n, t, bad) }})
+				out = append(out, hx.Scenario{Name: "rabin-uniform-badT", Cfg: fmt.Sprintf("n=%d t=%d T=%d", n, t, bad), Run: func(x *hx.Ctx) { rabUniformBadT(x, n, t, bad) }})
+			}
+		}
+	}
 	return out
 }
